@@ -36,6 +36,8 @@ def check(run):
     _be(run, be)
     _plasma(run, pl)
     run.include('C01', set(FILES), 'the cached receiver species, rates and populations must follow changes of the plasma composition')
+    from ..cachekey import check_caches
+    check_caches(run, [m_ for m_ in prog.modules.values() if m_.relpath in set(FILES) and not m_.name.endswith('#pxd')], 'C05-K', prog=prog)
 
 
 def _m(ci, name):
